@@ -172,14 +172,14 @@ theorem layout (t : Table) (h : Wf t) : parseCsv (csvLines t) = expectedTable t 
 /-! ### files -/
 
 /-- An existing output file is never overwritten unless forced: the call is refused and nothing changes. -/
-theorem no_overwrite (fs : FS) (output tmp : String) (size : Nat) (h : output ∈ fs.files) (hs : size ≤ 15) :
+theorem no_overwrite (fs : FS) (output tmp : String) (size : Nat) (h : output ∈ fs.files) (hs : size ≤ limitBytes) :
     toCsvFS fs output tmp size false = (fs, .refused) := by
   unfold toCsvFS
-  have : ¬ size > 15 := by omega
+  have : ¬ size > limitBytes := by omega
   simp [this, h]
 
 /-- Oversized datasets are skipped unless forced: nothing is written, nothing changes. -/
-theorem oversize_skipped (fs : FS) (output tmp : String) (size : Nat) (hs : 15 < size) :
+theorem oversize_skipped (fs : FS) (output tmp : String) (size : Nat) (hs : limitBytes < size) :
     toCsvFS fs output tmp size false = (fs, .skipped) := by
   unfold toCsvFS
   simp [hs]
